@@ -284,6 +284,8 @@ def _ctor_reads(run, ci, PV=None):
                     if PV is not None and "element_map" not in src:
                         # the stored value held in a temporary: what the temporary stands for at the store
                         xs = {x for nn in gm_.nodes_of(n) for x in PV.expand_consistent(m, ci, n.value, nn, stop=("element_map",))}
+                        # (an optional field starts as None and takes the map's value when present: the variant that reads the map is the field's source)
+                        xs = {x for x in xs if "element_map" in x} or xs
                         if len(xs) == 1:
                             src = next(iter(xs))
                     mm = re.search(r"element_map(?:\[['\"](\w+)['\"]\]|\.get\(['\"](\w+)['\"]\))", src)
